@@ -534,6 +534,7 @@ type scenario struct {
 	Corpus  string   `json:"corpus"` // mix | tie | single | empty | shipped
 	Raw     string   `json:"raw,omitempty"`
 	Cap     int      `json:"cap,omitempty"`
+	PrimeQ  string   `json:"primeq,omitempty"`
 	BoostV  int      `json:"boostvar,omitempty"` // which context-boost map (same terms, permuted / different values)
 	// Prime: a search with one option changed is issued on the same (long-lived) database / cache object just
 	// before the search under test, so anything the engine remembers between searches is exercised
@@ -688,6 +689,10 @@ func runEntry(c *corpusT, s scenario, q string) (out runOut, first *runOut) {
 		}
 	}()
 	o := s.options()
+	pq := q // the priming search is asked in this spelling (a re-spelt query is primed with the original spelling)
+	if s.PrimeQ != "" {
+		pq = s.PrimeQ
+	}
 	prime := func(f func(po database.SearchOptions)) {
 		if s.Prime == "" {
 			return
@@ -697,25 +702,25 @@ func runEntry(c *corpusT, s scenario, q string) (out runOut, first *runOut) {
 	}
 	switch s.Entry {
 	case "universal":
-		prime(func(po database.SearchOptions) { c.db.SearchUniversal(q, po) })
+		prime(func(po database.SearchOptions) { c.db.SearchUniversal(pq, po) })
 		out.hits = toHits(c.db.SearchUniversal(q, o))
 	case "search":
 		out.hits = toHits(c.db.Search(q, s.Limit))
 	case "pipeline":
-		prime(func(po database.SearchOptions) { c.db.SearchWithPipelineOptions(q, po) })
+		prime(func(po database.SearchOptions) { c.db.SearchWithPipelineOptions(pq, po) })
 		out.hits = toHits(c.db.SearchWithPipelineOptions(q, o))
 	case "legacynlp": // deprecated public entry points, still part of the engine's API
-		prime(func(po database.SearchOptions) { c.db.SearchWithNLP(q, po) })
+		prime(func(po database.SearchOptions) { c.db.SearchWithNLP(pq, po) })
 		out.hits = toHits(c.db.SearchWithNLP(q, o))
 	case "legacyfuzzy":
-		prime(func(po database.SearchOptions) { c.db.SearchWithFuzzy(q, po) })
+		prime(func(po database.SearchOptions) { c.db.SearchWithFuzzy(pq, po) })
 		out.hits = toHits(c.db.SearchWithFuzzy(q, o))
 	case "legacyoptions":
-		prime(func(po database.SearchOptions) { c.db.SearchWithOptions(q, po) })
+		prime(func(po database.SearchOptions) { c.db.SearchWithOptions(pq, po) })
 		out.hits = toHits(c.db.SearchWithOptions(q, o))
 	case "cached":
 		cdb := database.VerifNewCachedDatabase(c.db, 50, 0)
-		prime(func(po database.SearchOptions) { cdb.SearchWithOptionsAndCache(q, po) })
+		prime(func(po database.SearchOptions) { cdb.SearchWithOptionsAndCache(pq, po) })
 		forms := []func(string, database.SearchOptions) []database.SearchResult{cdb.SearchWithOptionsAndCache, cdb.SearchWithFuzzyAndCache,
 			cdb.SearchWithPipelineOptionsAndCache} // three names for the same request
 		k := len(q) + s.Limit + b2i(s.NLP)
@@ -728,7 +733,7 @@ func runEntry(c *corpusT, s scenario, q string) (out runOut, first *runOut) {
 		out.path = "cached"
 	case "monitored":
 		mdb := database.VerifNewMonitoredDatabase(c.db, 50, 0)
-		prime(func(po database.SearchOptions) { mdb.SearchWithOptionsAndMonitoring(q, po) })
+		prime(func(po database.SearchOptions) { mdb.SearchWithOptionsAndMonitoring(pq, po) })
 		f := runOut{hits: toHits(mdb.SearchWithOptionsAndMonitoring(q, o))}
 		first = &f
 		out.hits = toHits(mdb.SearchWithOptionsAndMonitoring(q, o))
